@@ -148,6 +148,8 @@ pub enum Step {
     },
     Wpend {},
     Werr {},
+    /// the transport takes nothing: write returns Ok(0)
+    Wzero {},
     F {
         r: String,
     },
